@@ -26,7 +26,7 @@ ASSUMPTIONS = ["the integral itself is sedfitter's own Filter.rebin used in isol
                'fit agreement is judged by model name within a first-order perturbation bound; models whose prediction is within 10 delta of a limit point are skipped']
 PROBES = ['crash_rerun', 'crash_left_partial_file', 'subset_calls', 'overwrite_call', 'mixed_grid', 'v1_v2_compared', 'fits_compared',
           'multi_aperture', 'gz_package', 'subdir_package', 'f4_storage', 'limit_skipped', 'tie_group', 'singular_skipped',
-          'consumer_between_convolver_calls', 'remove_resolved']
+          'consumer_between_convolver_calls', 'remove_resolved', 'bystander_fitter_alive']
 
 
 def budgets(tier):
@@ -80,6 +80,7 @@ def generate(rng, tier, idx):
     for i in range(rng.randint(1, 3)):
         steps.append({'op': 'fit', 'source': gen_source(rng, nf, 'src%d' % i, flags=(0, 1, 1, 1, 1, 2, 3, 9), min_fit=min(2, nf))})
     return {'world': w, 'formats': formats, 'listing_seed': rng.randrange(1 << 30), 'theta_seed': rng.randrange(1 << 30),
+            'bystander': rng.choice([None, None, 'before', 'after']), 'bystander_seed': rng.randrange(1 << 30),
             'remove_resolved': w['apdep'] and rng.random() < 0.4,      # a documented Fitter option; must act alike in every configuration
             'av_range': [0.0, round(rng.uniform(2, 30), 2)], 'drange': [1.0, rng.choice([1.0, 1.5, 2.5])], 'steps': steps}
 
@@ -320,12 +321,31 @@ def _execute(sc, sim, out):
         names, ap = pipe.filter_args(W, sc)
         kw = pipe.fitter_kwargs(W, sc)
         Fs = {}
+        alive = []
+
+        def bystander():
+            # another user's memory-mapped Fitter on another cube package (same names and filters, other numbers)
+            from ..author import prelude_spec
+            Wb = World(prelude_spec(spec, random.Random(sc.get('bystander_seed', 1))))
+            db = Wb.write(sim.path('other_cube'), fmt=2)
+            if pipe.call(pipe.convolve_model_dir, db, Wb.filters())[0] != 'ok':
+                return
+            rb = pipe.call(pipe.Fitter, names, ap, db, use_memmap=True, remove_resolved=Wb.apdep, extinction_law=Wb.extinction(),
+                           av_range=list(sc['av_range']), distance_range=list(sc['drange']) * u.kpc)
+            if rb[0] == 'ok':
+                alive.append(rb[1])
+                out.probe('bystander_fitter_alive')
+                sim.fired('bystander_fitter')
+        if sc.get('bystander') == 'before':
+            bystander()
         for key, d, mm in (('v1', dirs[1], True), ('v2', dirs[2], False), ('v2m', dirs[2], True)):
             r = pipe.call(pipe.Fitter, names, ap, d, use_memmap=mm, remove_resolved=bool(sc.get('remove_resolved')), **kw)
             if r[0] != 'ok':
                 out.violate('fitter-failed', 'Fitter on %s raised %s: %s' % (key, pipe.exc_name(r), r[1]), key='%s/%s@%s' % (key, pipe.exc_name(r), pipe.where(r[1]) if r[0] == 'exc' else ''))
                 break
             Fs[key] = r[1]
+        if sc.get('bystander') == 'after' and not out.violations:
+            bystander()
         if sc.get('remove_resolved'):
             out.probe('remove_resolved')
         if not out.violations:
@@ -419,6 +439,8 @@ def _execute(sc, sim, out):
 
 
 def lowerings(sc, viol=None):
+    if sc.get('bystander'):
+        yield dict(sc, bystander=None)
     if sc.get('remove_resolved'):
         yield dict(sc, remove_resolved=False)
     for i, st in enumerate(sc['steps']):
